@@ -216,6 +216,7 @@ end TP
 structure Choice where
   e : Nat → Bool := fun _ => false  -- per component: the raced call of this component reported the context error
   k : Nat → Nat := fun _ => 0       -- per component: records exported by the raced drain / exporter calls reached
+  x : Nat → Nat := fun _ => 0       -- per component: records already exported when the raced ForceFlush returned
 
 /-! ## Logger provider (sdk/log/provider.go, logger.go, simple.go, batch.go) -/
 namespace LP
@@ -242,31 +243,36 @@ def procEmit (p : PS) : PS :=
   | .batchRec => if p.stopped then p else { p with queued := p.queued + 1 }
   | _ => p
 
-/-- `p.ForceFlush(ctx)`; `k` = whether the raced `bufferExporter.ForceFlush` reached the user exporter.
-A batch processor hands the whole queue to its export goroutine in both cases. -/
-def procFlush (done : Bool) (k : Nat) (p : PS) : PS :=
+/-- `p.ForceFlush(ctx)`.  Live context: the whole queue is handed to the export goroutine and the call waits
+until it has been exported.  Done context: the hand-over and the export race the caller's return — `x` records
+have been exported when the call returns, the others stay pending (`queued`: still in the queue or in the export
+buffer; they surface asynchronously, see Lag.lean, at the latest at the next live ForceFlush / Shutdown);
+`k` = whether the raced `bufferExporter.ForceFlush` reached the user exporter. -/
+def procFlush (done : Bool) (k x : Nat) (p : PS) : PS :=
   match p.kind with
   | .recd => { p with cnt := { p.cnt with f := p.cnt.f + 1 } }
   | .simpleRec => { p with cnt := { p.cnt with f := p.cnt.f + 1 } }
   | .batchRec =>
     if p.stopped then p
-    else { p with queued := 0,
-                  cnt := { p.cnt with n := p.cnt.n + p.queued,
-                                      f := p.cnt.f + (if done then min k 1 else 1) } }
+    else if done then
+      { p with queued := p.queued - min x p.queued,
+               cnt := { p.cnt with n := p.cnt.n + min x p.queued, f := p.cnt.f + min k 1 } }
+    else { p with queued := 0, cnt := { p.cnt with n := p.cnt.n + p.queued, f := p.cnt.f + 1 } }
   | _ => p
 
 /-- `p.Shutdown(ctx)`; SimpleProcessor has no guard of its own; BatchProcessor: `stopped.Swap(true)`, then
-with a done context the final flush races (`k` records of the queue still exported), the exporter is shut
-down exactly once on every path. -/
+with a done context the final flush races (`k` records exported when the call returns; the rest stays pending:
+lost, or in the export buffer and exported a little later), the exporter is shut down exactly once on every path. -/
 def procShutdown (done : Bool) (k : Nat) (p : PS) : PS :=
   match p.kind with
   | .recd => { p with cnt := { p.cnt with s := p.cnt.s + 1 } }
   | .simpleRec => { p with cnt := { p.cnt with s := p.cnt.s + 1 } }
   | .batchRec =>
     if p.stopped then p
-    else { p with stopped := true, queued := 0,
-                  cnt := { p.cnt with s := p.cnt.s + 1,
-                                      n := p.cnt.n + (if done then min k p.queued else p.queued) } }
+    else if done then
+      { p with stopped := true, queued := p.queued - min k p.queued,
+               cnt := { p.cnt with s := p.cnt.s + 1, n := p.cnt.n + min k p.queued } }
+    else { p with stopped := true, queued := 0, cnt := { p.cnt with s := p.cnt.s + 1, n := p.cnt.n + p.queued } }
   | .batchNil => { p with stopped := true }
   | .simpleNil => p
 
@@ -314,7 +320,7 @@ def step (s : St) : Op → St × Res
     if s.stopped then (s, .ok)
     else
       let res := if c.done && (List.range s.n).any (flushErr ch s.pool) then c.err else .ok
-      ({ s with pool := forAll s.n s.pool fun i => procFlush c.done (ch.k i) }, res)
+      ({ s with pool := forAll s.n s.pool fun i => procFlush c.done (ch.k i) (ch.x i) }, res)
   | .shutdown c ch =>
     if s.stopped then (s, .ok)
     else
